@@ -55,14 +55,21 @@ func (p *Program) calleePostMode(callee *FuncInfo, mode string) *postInfo {
 		return ok
 	}
 	if mode != "" {
-		if sig.Results().Len() != 1 {
+		nres := sig.Results().Len()
+		if nres < 1 {
 			return pi
 		}
-		if b, ok := sig.Results().At(0).Type().Underlying().(*types.Basic); !ok || b.Kind() != types.Bool {
+		if b, ok := sig.Results().At(nres-1).Type().Underlying().(*types.Basic); !ok || b.Kind() != types.Bool {
 			return pi
 		}
 		for obj, idx := range p.stableParams(callee) {
 			pi.params[obj] = idx
+		}
+		// named results stand for the values the caller receives (index 1000+i)
+		for i := 0; i < nres-1; i++ {
+			if rv := sig.Results().At(i); rv.Name() != "" && rv.Name() != "_" {
+				pi.params[rv] = 1000 + i
+			}
 		}
 	} else {
 		if rv := sig.Recv(); rv != nil && isPtr(rv) {
@@ -83,7 +90,9 @@ func (p *Program) calleePostMode(callee *FuncInfo, mode string) *postInfo {
 		if as, ok := n.(*ast.AssignStmt); ok {
 			for _, l := range as.Lhs {
 				if id, ok := l.(*ast.Ident); ok {
-					delete(pi.params, info.Uses[id])
+					if idx, tracked := pi.params[info.Uses[id]]; tracked && idx < 1000 {
+						delete(pi.params, info.Uses[id])
+					}
 				}
 			}
 		}
@@ -97,25 +106,67 @@ func (p *Program) calleePostMode(callee *FuncInfo, mode string) *postInfo {
 		if e.Kind == ExitPanic {
 			continue
 		}
+		var assumeExpr ast.Expr
 		if mode != "" {
 			rs, isR := e.Node.(*ast.ReturnStmt)
-			if !isR || len(rs.Results) != 1 {
+			nres := sig.Results().Len()
+			if !isR || (len(rs.Results) != nres && len(rs.Results) != 0) {
 				pi.atoms = nil
 				return pi
 			}
-			tv, has := info.Types[rs.Results[0]]
-			if !has || tv.Value == nil {
-				// a return whose value is not a constant may be either: no conditional facts
-				pi.atoms = nil
-				return pi
+			var last ast.Expr
+			if len(rs.Results) == 0 {
+				if sig.Results().At(nres-1).Name() == "" {
+					pi.atoms = nil
+					return pi
+				}
+				last = ast.NewIdent(sig.Results().At(nres - 1).Name())
+			} else {
+				last = rs.Results[nres-1]
+				// the other results must be the named results themselves for the mapping to the caller to hold
+				for i := 0; i < nres-1; i++ {
+					rv := sig.Results().At(i)
+					if _, tracked := pi.params[rv]; tracked {
+						if id, isId := ast.Unparen(rs.Results[i]).(*ast.Ident); !isId || info.Uses[id] != types.Object(rv) {
+							if tv, has := info.Types[rs.Results[i]]; !(has && tv.Value != nil) {
+								delete(pi.params, rv)
+							} else {
+								// a constant is returned instead of the named result on this path: only sound when
+								// this return is not of the requested mode; checked below by dropping the mapping
+								// when the path is kept
+								defer func(rv *types.Var) {}(rv)
+							}
+						}
+					}
+				}
 			}
-			if tv.Value.String() != mode {
-				continue
+			if tv, has := info.Types[last]; has && tv.Value != nil {
+				if tv.Value.String() != mode {
+					continue
+				}
+				// a kept path that returns constants in place of named results: those results carry no facts
+				if len(rs.Results) == nres {
+					for i := 0; i < nres-1; i++ {
+						rv := sig.Results().At(i)
+						if id, isId := ast.Unparen(rs.Results[i]).(*ast.Ident); !isId || info.Uses[id] != types.Object(rv) {
+							delete(pi.params, rv)
+						}
+					}
+				}
+			} else {
+				assumeExpr = last
 			}
 		}
 		f, ok := facts.AtExit(e)
 		if !ok || f.dead {
 			continue
+		}
+		if assumeExpr != nil {
+			f = f.clone()
+			f.assume(assumeExpr, mode == "true")
+			if f.dead {
+				continue
+			}
 		}
 		cur := map[string]postAtom{}
 		for atom, ra := range f.rel {
@@ -131,6 +182,13 @@ func (p *Program) calleePostMode(callee *FuncInfo, mode string) *postInfo {
 			}
 			cur[atom] = postAtom{ra.Op, ra.X, ra.Y, v}
 		}
+		for atom, be := range f.bexp {
+			v, known := f.m[atom]
+			if !known || !p.onlyParams(info, be, pi.params) || !mentionsParam(info, be, pi.params) {
+				continue
+			}
+			cur[atom] = postAtom{token.ILLEGAL, be, nil, v}
+		}
 		if first {
 			common, first = cur, false
 			continue
@@ -142,12 +200,18 @@ func (p *Program) calleePostMode(callee *FuncInfo, mode string) *postInfo {
 		}
 	}
 	for _, a := range common {
+		if !p.onlyParams(info, a.X, pi.params) || a.Y != nil && !p.onlyParams(info, a.Y, pi.params) {
+			continue
+		}
 		pi.atoms = append(pi.atoms, a)
 	}
 	return pi
 }
 
 func mentionsParam(info *types.Info, e ast.Expr, params map[types.Object]int) bool {
+	if e == nil {
+		return false
+	}
 	found := false
 	ast.Inspect(e, func(n ast.Node) bool {
 		if id, ok := n.(*ast.Ident); ok {
@@ -207,6 +271,9 @@ func (p *Program) onlyParams(info *types.Info, e ast.Expr, params map[types.Obje
 }
 
 func substParamsExpr(info *types.Info, e ast.Expr, sub map[types.Object]ast.Expr) ast.Expr {
+	if e == nil {
+		return nil
+	}
 	switch x := e.(type) {
 	case *ast.Ident:
 		if r, ok := sub[info.Uses[x]]; ok && info.Uses[x] != nil {
@@ -281,7 +348,11 @@ func (p *Program) applyCalleePost(info *types.Info, n *Facts, st ast.Node) {
 			if !complete {
 				continue
 			}
-			n.setRel(a.Op, substParamsExpr(info, a.X, sub), substParamsExpr(info, a.Y, sub), a.Val)
+			if a.Op == token.ILLEGAL {
+				n.assume(substParamsExpr(info, a.X, sub), a.Val)
+			} else {
+				n.setRel(a.Op, substParamsExpr(info, a.X, sub), substParamsExpr(info, a.Y, sub), a.Val)
+			}
 		}
 	}
 }
@@ -619,7 +690,79 @@ func (p *Program) applyCondPost(info *types.Info, n *Facts, cond ast.Expr, val b
 			}
 		}
 		if complete {
-			n.setRel(a.Op, substParamsExpr(info, a.X, sub), substParamsExpr(info, a.Y, sub), a.Val)
+			if a.Op == token.ILLEGAL {
+				n.assume(substParamsExpr(info, a.X, sub), a.Val)
+			} else {
+				n.setRel(a.Op, substParamsExpr(info, a.X, sub), substParamsExpr(info, a.Y, sub), a.Val)
+			}
+		}
+	}
+}
+
+// recordPending: `..., ok := helper(args)` (or `=`) with helper a function of this package whose last result is a
+// bool: remember what the helper guarantees for ok == true and for ok == false, in terms of the caller's
+// expressions. The facts are instantiated now (they describe the state at the call) and survive until the
+// variables or fields they mention are written or the lock protecting those fields is released.
+func (p *Program) recordPending(info *types.Info, n *Facts, st ast.Node) {
+	as, ok := st.(*ast.AssignStmt)
+	if !ok || len(as.Rhs) != 1 || len(as.Lhs) < 1 {
+		return
+	}
+	c, ok := ast.Unparen(as.Rhs[0]).(*ast.CallExpr)
+	if !ok {
+		return
+	}
+	fn := calleeOf(info, c)
+	if fn == nil {
+		return
+	}
+	callee := p.FuncOf(fn)
+	if callee == nil || callee.Pkg != p.Root || callee.Obj == nil {
+		return
+	}
+	sig := callee.Obj.Type().(*types.Signature)
+	if sig.Results().Len() != len(as.Lhs) {
+		return
+	}
+	okID, isId := as.Lhs[len(as.Lhs)-1].(*ast.Ident)
+	if !isId || okID.Name == "_" {
+		return
+	}
+	for _, mode := range []string{"true", "false"} {
+		pi := p.calleePostMode(callee, mode)
+		if pi == nil || len(pi.atoms) == 0 {
+			continue
+		}
+		sub := p.callSubst(callee, c)
+		for obj, idx := range pi.params {
+			if idx >= 1000 && idx-1000 < len(as.Lhs)-1 {
+				if lid, isL := as.Lhs[idx-1000].(*ast.Ident); isL && lid.Name != "_" {
+					sub[obj] = lid
+				}
+			}
+		}
+		for _, a := range pi.atoms {
+			complete := true
+			for obj := range pi.params {
+				if _, has := sub[obj]; !has && (mentionsParam(info, a.X, map[types.Object]int{obj: 0}) || mentionsParam(info, a.Y, map[types.Object]int{obj: 0})) {
+					complete = false
+				}
+			}
+			if !complete {
+				continue
+			}
+			x := substParamsExpr(info, a.X, sub)
+			var y ast.Expr
+			ys := ""
+			if a.Y != nil {
+				y = substParamsExpr(info, a.Y, sub)
+				ys = " " + a.Op.String() + " " + normStr(info, y)
+			}
+			key := okID.Name + " ⇒" + mode[:1] + ": " + normStr(info, x) + ys
+			if n.pend == nil {
+				n.pend = map[string]pendAtom{}
+			}
+			n.pend[key] = pendAtom{v: okID.Name, when: mode == "true", ra: relAtom{a.Op, x, y}, val: a.Val}
 		}
 	}
 }
